@@ -193,26 +193,42 @@ def strategies():
 
     @st.composite
     def rooms(draw, h, w):
-        rid = [[-1] * w for _ in range(h)]
-        n = 0
-        p_new = draw(st.sampled_from([1, 2, 5]))
-        for y in range(h):
-            for x in range(w):
-                opts = []
-                if x > 0:
-                    opts.append(rid[y][x - 1])
-                if y > 0:
-                    opts.append(rid[y - 1][x])
-                c = draw(st.integers(0, p_new + len(opts) - 1)) if opts else 0
-                if not opts or c == len(opts):
-                    rid[y][x] = n
-                    n += 1
-                else:
-                    rid[y][x] = opts[min(c, len(opts) - 1)]
-        out = [[] for _ in range(n)]
-        for y in range(h):
-            for x in range(w):
-                out[rid[y][x]].append([y, x])
+        """random spanning tree minus some edges: every connected partition is reachable"""
+        cells = [(y, x) for y in range(h) for x in range(w)]
+        edges = []
+        for (y, x) in cells:
+            if x + 1 < w:
+                edges.append(((y, x), (y, x + 1)))
+            if y + 1 < h:
+                edges.append(((y, x), (y + 1, x)))
+        parent = {c: c for c in cells}
+
+        def find(c):
+            while parent[c] != c:
+                parent[c] = parent[parent[c]]
+                c = parent[c]
+            return c
+
+        tree = []
+        if edges:
+            for i in draw(st.permutations(list(range(len(edges))))):
+                a, b = edges[i]
+                ra, rb = find(a), find(b)
+                if ra != rb:
+                    parent[ra] = rb
+                    tree.append((a, b))
+        n_cut = draw(st.integers(0, len(tree))) if tree else 0
+        if tree and draw(st.booleans()):
+            n_cut = min(n_cut, 4)
+        parent = {c: c for c in cells}
+        for a, b in tree[n_cut:]:
+            parent[find(a)] = find(b)
+        groups = {}
+        for c in cells:
+            groups.setdefault(find(c), []).append(c)
+        ids = {r: i for i, r in enumerate(groups)}
+        rid = [[ids[find((y, x))] for x in range(w)] for y in range(h)]
+        out = [[list(c) for c in g] for g in groups.values()]
         if draw(st.booleans()):
             out = [list(draw(st.permutations(r))) for r in out]
             out = list(draw(st.permutations(out)))
